@@ -45,6 +45,19 @@ NOTES = {
     'r5b_5': 'missed at first (verbatim code held no assert); caught after the fenced verbatim form reports its execution from inside an assert',
     'r5b_6': 'missed at first (at most two leaves per equation with verbatim fragments, and not under C20); caught after layer verb3 (three leaves, two fragments around ordinary terms) was added to C01 and C20',
     'r5c_5': 'missed at first (dlog was only run on strictly positive data); caught after a second dlog pass on data with negative, zero and positive elements',
+    'r6a_1': 'missed at first (every behaviour ran on a fresh object); caught after the Solver replay gained objects with a history (solved before, every variable re-bound by a sequence assignment)',
+    'r6a_2': 'missed at first (C04 only rejected calls through offsets, on unstamped periods); caught after C04 also makes the min_iter > max_iter and pre-existing-non-finite rejections on fresh and on previously stamped periods',
+    'r6a_4': 'missed at first (check values never had both signs at the top of the float64 range); caught after the signed-huge value map was added to the Solver replay',
+    'r6a_6': 'missed at first (130 snapshots were the longest trace); caught after Tracer got a deterministic deep slice (tol = 0, 2 000 passes) whose traced solve is repeated until the period holds more than 12 000 snapshots',
+    'r6a_7': 'missed at first (exponents were single literals); caught after layer fortran_pow3 (quotients of literals in a parenthesised exponent)',
+    'r6b_1': 'missed at first (C01 never used the function-like variable names within one process as calls to the same names); caught after the funcnames map was added to C01',
+    'r6b_3': 'first missed (no variable was named like an attribute of the model objects), then a machinery failure (BuildError after a successful parse was not classified); caught after the attrnames map and the classification were added',
+    'r6b_4': 'missed at first (a statement was never repeated in another layout); caught after that C14 clause was added - which also surfaced the known finding that compact / wide / multiline repetitions are rejected on the pinned tree (KNOWN_FINDINGS.txt); the seeded change fails further layouts (tabs, explicit [0], inner spaces), reported under their own keys',
+    'r6b_5': 'missed at first (every converter returned code); caught after converters that return an empty block / a mere comment were added',
+    'r6c_1': 'missed at first (near misses concerned class-level variables only); caught after slice K-near (strict mode; near misses of a variable before and after add_variable creates it)',
+    'r6c_2': 'missed at first (absent labels of integer spans were other integers); caught after every other record realises an absent label as the string that spells a present one',
+    'r6c_6': 'missed at first (period labels never spelt a name of the model); caught after the span kind whose labels are the alias and variable names',
+    'r6c_7': 'missed at first (integer data were small); caught after integer cells were moved beyond 2**53',
     'c14_b': 'missed at first (comments of the catalogue had balanced brackets); caught after the comments layout got unmatched brackets',
 }
 
